@@ -57,7 +57,7 @@ func valsOut(kind int, l []interface{}) []int {
 }
 
 func newBufRun(h *hctx, kind, mx, tg int, cooldown time.Duration) *bufRun {
-	b := new(Buffer)
+	var b *Buffer
 	var cl Cleaner
 	switch kind {
 	case 0:
@@ -69,8 +69,15 @@ func newBufRun(h *hctx, kind, mx, tg int, cooldown time.Duration) *bufRun {
 	default:
 		cl = func(int, []int) int { return -3 }
 	}
-	if err := b.SetCleanerConfig(CleanerConfig{Cleaner: cl, Cooldown: cooldown}); err != nil {
-		h.t.Fatal(err)
+	// The configuration is installed before first use (in-package literal), so that the cleaner goroutine never runs a
+	// first cycle with the DEFAULT 10 ms cooldown: with new(Buffer) + SetCleanerConfig it may, and then defers all
+	// cleaning for 10 ms, which the scenarios (a few ms long) would have to wait out before every settled observation.
+	b = &Buffer{cleaner: &CleanerConfig{Cleaner: cl, Cooldown: cooldown}}
+	if h.rng.Intn(4) == 0 {
+		// also exercise the public path
+		if err := b.SetCleanerConfig(CleanerConfig{Cleaner: cl, Cooldown: cooldown}); err != nil {
+			h.t.Fatal(err)
+		}
 	}
 	return &bufRun{h: h, b: b, pendGet: map[int]*bufOp{}, getStop: map[int]context.CancelFunc{}, pendClC: map[int]*bufOp{},
 		nextVal: 1}
